@@ -323,11 +323,12 @@ impl Database {
             // Run recovery through recuperator
             recuperator.run_recovery(&analysis).map_err(box_err)?;
 
-            // Truncate WAL
-            pager.write().truncate_wal().map_err(box_err)?;
-
             // Commit recovery transaction
             tx_ctx.commit_transaction().map_err(box_err)?;
+
+            // Checkpoint what recovery rebuilt; the log is dropped only after the pages
+            // and the header have been written (Pager::flush truncates it last).
+            pager.write().flush().map_err(box_err)?;
 
             Ok(())
         })?;
